@@ -577,7 +577,10 @@ def letterwise_rule(ctx, rule: str, lib_hook):
     r = ctx.report
     cls = p.get_class("moclo.regex.DNARegex")
     fi = p.get_func("moclo.regex.DNARegex.__init__")
-    lm = ast.literal_eval(cls.attrs["_lettermap"])
+    from .roles import letter_table
+
+    lm_name, lm_raw = letter_table(p)
+    lm = ast.literal_eval(lm_raw)
     keys = ",".join(sorted(lm))
     X = Term("letter")
 
@@ -626,7 +629,7 @@ def letterwise_rule(ctx, rule: str, lib_hook):
         except Exception as e:
             items = None
         ok = items is not None and len(items) == 1 and str(items[0][0]) in ("IN", "LITERAL", "ANY", "NOT_LITERAL")
-        r.ob(rule + ".atom", "DNARegex._lettermap#%s" % code, ok,
+        r.ob(rule + ".atom", "DNARegex.<letter table>#%s" % code, ok,
              "the transcription %r of %s must be one regex atom (a character class) with no capturing group: a quantifier after the code "
              "would otherwise bind to part of it, or group numbers shift" % (val, code), cls.where())
     r.floor(rule + ".letterwise", 2)
